@@ -1,7 +1,7 @@
 """C16 — vcheck configuration (PROP) and MANIFEST claim (CHECK)."""
 PROP = {
  'module': 'UmProps.C16',
- 'gen_modules': ['HostileCfg', 'RespCfg', 'CmdTables', 'Consts'],
+ 'gen_modules': ['HostileCfg', 'CmdTables', 'Consts'],
  'streams': [
   {'name': 'hostile_inproc', 'harness': 'umh_hostile', 'driver': 'hostile', 'args': ['--mode', 'inproc']},
   {'name': 'hostile', 'harness': 'umh_hostile', 'driver': 'hostile', 'args': ['--mode', 'child'],
@@ -15,24 +15,21 @@ PROP = {
   'iterations + nodes visited by every advance(); the allocation part is checked byte-exactly against a counting '
   'global allocator on every run, the step part is an annotation of the transliterated control flow',
   'every (sub-)command handed to the routing layer is answered exactly once (property C08); handlers of UMCTL / '
-  'CLUSTER / CONFIG / COMMAND / UMSYNC are outside the handler model (they are exercised through the child '
-  'process only)',
+  'CLUSTER / CONFIG / COMMAND / UMSYNC are outside the handler model (exercised through the child process only; of '
+  'UMCTL SETCLUSTER only RangeMap::from of a tagged range is modelled)',
   'buffers are shorter than isize::MAX / 32 bytes; commands have fewer than 2^64 - 3 arguments',
   'btoi 0.4.2 / atoi 1.0 / str::parse::<usize> / str::from_utf8 grammars as transliterated (btoi, parse::<usize> '
   'and from_utf8 are checked differentially; atoi::<usize> of UMCTL SLOWLOG GET is not)',
  ],
  'gaps': [
-  'C16_alloc (linear allocation bound) is proved for the parser variant with f4.diff + f16b.diff; on the current '
-  'tree it is false (F4: C16_alloc_full_false) and C16_alloc_partial holds under the guard "no array header '
-  'declares more elements than bytes remain" with a bound linear in input x nesting height',
-  'C16_total is proved for the variants with f5.diff / f16a.diff / f16c.diff (handlers) and f4.diff (decoder); on '
-  'the current tree the decoder panics on *9223372036854775807 (F4), BLPOP <non-bulk> k t is never answered (F16a) '
-  'and the slow log can panic on a char boundary (F16c): C16_total_full_false, C16_total_decode_full_false',
-  'C16_steps: the parser bound is quadratic per parse_resp call (advance re-walks the sub-tree per nesting level) '
-  'and linear only with the nesting limit of f16b.diff; the handler bound needs numkeys <= argc (f5.diff), false '
-  'on the current tree (F5: C16_steps_handlers_full_false)',
-  'stack depth: recursion height is linear in the input without f16b.diff; the overflow itself (F16b) is '
-  'measured on the real binary, not proved (the frame size is not modelled)',
+  'the *_cur theorems instantiate the full statements at the switch values the extractor reads from /repo/src on '
+  'every run (capRemaining, maxNesting = 128, numkeysBounded, blockingEmptyGuard, slowlogBoundarySafe, '
+  'rangeMapBounded, compressedCompact): reverting a fix makes them fail to build; the _partial / _full_false '
+  'theorems are statements about the other switch values (the tree before the fixes) and stay as documentation',
+  'C16_steps: one parse_resp call is linear only through the nesting limit (2*(M+1)*(n+1), M = 128); re-parsing an '
+  'incomplete buffer after every received byte is quadratic by design (C16_steps_reparse)',
+  'stack depth: recursion height <= MAX_NESTING + 1 is proved; that this fits the 2 MiB worker stack is measured '
+  '(the frame size is not modelled)',
   'runtime part (RSS, wall time, "other connections keep being served", allocator and tokio behaviour) is measured '
   'by the child-process stream as supporting evidence, not proved',
  ],
@@ -47,18 +44,19 @@ CHECK = {
  'technique': 'Lean 4 theorems over all byte strings / argument vectors on a cost-instrumented parser and '
               'executor model + differential correspondence (in-process real decoder with a counting allocator; '
               'the real server_proxy binary as a child process)',
- 'text': 'Proved (Lean 4, induction on the parser): one parse_resp call requests at most 32*(n+1)*height bytes '
-         'when no header over-declares, takes at most 2*(n+1)*height steps, height <= n+1; with the capacity cap '
-         '(f4.diff) and the nesting limit M (f16b.diff): alloc <= 32*(M+1)*(n+1), steps <= 2*(M+1)*(n+1), no '
-         'decode call and no connection stream ends in a panic; with f5/f16a/f16c.diff no modelled handler '
-         '(EVAL/EVALSHA numkeys, blocking arity/timeout, UMFORWARD, MSET/MGET/DEL/EXISTS, SLOWLOG GET, slow-log '
-         'record, command-name scan, ClusterName) panics or leaves a request unanswered and its iterations are '
-         '<= 6*argument bytes + 2*argc + 1. On the current tree the full statements are refuted by proved '
-         'witnesses and shown on the real server_proxy binary: F4 (*99999999999 aborts the process), F5 (EVAL s '
-         '10^18 k spins a worker), F16a (BLPOP <nil> k 1 never answered), F16b (56 KB of nested arrays overflow '
-         'the worker stack: SIGABRT), F16c (slow-log truncation panics). The model is tied to the code by '
+ 'text': 'Proved (Lean 4, induction on the parser) for the code variant the extractor finds in /repo/src (capacity '
+         'capped by the bytes left, nesting limit M = 128, numkeys <= argc, empty sub-command list answered, slow-log '
+         'truncation on a char boundary, total RangeMap::from, compressed SETCLUSTER compacted): one parse_resp call '
+         'requests at most 32*(M+1)*(n+1) bytes, takes at most 2*(M+1)*(n+1) steps and recurses at most M+1 deep; no '
+         'decode call and no connection byte stream ends in a panic; no modelled handler (EVAL/EVALSHA numkeys, '
+         'blocking arity/timeout/keys, UMFORWARD, MSET/MGET/DEL/EXISTS, SLOWLOG GET, slow-log record, command-name '
+         'scan, ClusterName, RangeMap of a tagged SETCLUSTER range) panics or leaves a request unanswered, and its '
+         'iterations are <= 6*argument bytes + 2*argc + 1 (<= 16384 per slot range). The seven defects this check '
+         'found (F4 alloc abort, F5 EVAL spin, F16a blocking wedge, F16b stack overflow, F16c slow-log panic, F16d/F16e '
+         'SETCLUSTER range panic / spin under the metadata lock) are fixed in /repo; their inputs are regression cases '
+         'and their old behaviour stays proved about the old switch values. The model is tied to the code by '
          'source-derived switches/tables and by running every generated input through the real decoder (allocation '
-         'measured byte-exactly) and through the real binary (reply / close / pending / abort / stall).',
+         'measured byte-exactly) and through the real binary (reply / close / pending / abort / stall, RSS, wall time).',
  'note': 'Trusted: Lean kernel; cost annotation of steps; child-process observer. Not covered: accept-loop fd '
-         'exhaustion, zstd bombs in replies, UMCTL admin commands as an attack surface (SHUTDOWN, CONFIG SET).',
+         'exhaustion, gzip/zstd bombs, UMCTL admin commands as an attack surface (SHUTDOWN, CONFIG SET).',
 }
